@@ -2,17 +2,46 @@
 correspondence between the model and the REAL engine driven by harness/engine_driver.py, and the
 implementation-side oracles of harness/engine_trace.py (Observer) restricted to this property.
 
+Second part (harness/engine_rerun.py, coq/Model/Rerun.v, coq/Proofs/RerunProofs.v, module Tree of
+Properties/C12.v): rerun / skip over the EXECUTION TREE - failing task plain / with-items / retry /
+upstream of a join, at nesting depth 0-2 (sub-workflows, also started through with-items), parallel
+branches still RUNNING or finished at the time of the request, requests through the engine or the real
+REST controller, repeated reruns, new attempt ok / error / cancelled, skip.  Correspondence: the DB
+abstraction before / after every rerun, skip, start_task(rerun) and refused request vs the Coq model.
+Oracle: "right after" (chain RUNNING, task RUNNING / SKIPPED, refusals change nothing) and "then" (the
+drained run equals the REFERENCE run of the same program in which the new result came first).
+
 Self-test (scratch worktrees, VERIF_REPO): reverting any of the engine fix commits recorded in
 known_findings.json makes this or a sibling engine check report a VIOLATION (see DESIGN.md appendix).
+Mutations of the rerun code tried against the tree part (scratch worktree = HEAD 8d14b765 + the two fixes below,
+`PYTHONPATH=<worktree>:/verif python -m harness.engine_rerun 260 0` and `VERIF_REPO=<worktree> ./check C12`):
+  S   seeded: workflows.py _recursive_rerun returns early when the parent workflow is RUNNING           CAUGHT
+      after-rerun:parent-task-not-RUNNING (20x) / after-skip:parent-task-not-RUNNING, differs-from-first-time-run:* (15x),
+      20 model disagreements (rerun_workflow: parent task row)
+  M1  workflows.py _recursive_rerun: mark_task_running(parent_task_ex) only if the parent task is ERROR CAUGHT
+      after-rerun:parent-task-not-RUNNING (parent CANCELLED), stuck-after-rerun:*, 20 model disagreements
+      (missed before the cancelled-parent cases `inst0` were added to the generator)
+  M2  tasks.py _reset_actions: reset off un-accepts every accepted execution                            CAUGHT
+      with-items-rerun:wrong-items-re-executed:reset=False, with-items-rerun:item-run-count, 26 model disagreements
+  M3  api task.py put: the `task_ex.state != ERROR` guard applied to state=RUNNING only                 CAUGHT
+      skip-of-<STATE>-task-not-refused, refused-request-changed-state:<STATE>, 67 model disagreements (api_put)
+  M4  task_handler.create_task: the fix of the rerun window removed                                     CAUGHT
+      after-rerun:task-not-RUNNING, differs-from-first-time-run:* (CORPUS cases 'hold_start'), model disagreements
+  M5  workflows.py Workflow.rerun: task.cleanup_runtime_context() removed (retry counter survives)      CAUGHT
+      differs-from-first-time-run:retry:* (12x); no model disagreement (runtime context is not in the tree model)
+Findings of this part on the then unchanged code (both accepted, fixed in /repo, histories kept in
+engine_rerun.CORPUS): "rerun window" (the rerun task stayed ERROR until its start request was delivered: a
+completion check in between failed the workflow), "publish-on-skip lost at a join".
 """
+from harness import engine_rerun
 from harness import engine_trace as et
 
 GEN = ['States']
 PROPS = ['C12'] + ['C01', 'C03']
 
 MANIFEST = {
-    'level_text': 'Coq theorems: rerun/skip are the only events leaving ERROR/CANCELLED and do so along table edges; refusals (paused or succeeded workflow, succeeded task) change nothing; routes of a skipped task; "finishes as if the new result had come first" is not proved: trace correspondence with rerun/skip of every kind of failed task at random positions, oracle.',
-    'level_note': 'Model = control-flow core of the engine (one direct-workflow execution, action tasks, joins all/one/N, on-success/on-error/on-complete with guards whose value is part of the program, engine commands fail/succeed/pause/noop, operator pause/resume/stop/rerun/skip, duplicate deliveries). One event = one committed transaction (tx_lock); data flow, policies, with-items and sub-workflows are outside this model (component models / oracles). Trusted: the harness interception points (rpc client, executor, post_tx_queue threads, scheduler rows, clock, uuid source), view abstraction, Gen/States translator.',
+    'level_text': 'Coq theorems: rerun/skip are the only events leaving ERROR/CANCELLED and do so along table edges; refusals (paused or succeeded workflow, succeeded task) change nothing; routes of a skipped task; over the execution tree (Model/Rerun.v, any depth, any row states, induction on the chain): closed form of the propagation, after an accepted request every enclosing workflow and parent task is RUNNING (a RUNNING ancestor included), nothing outside the chain changes, accepted iff no ancestor succeeded, refusals and REST guards change nothing, with-items reset off = exactly the failed items / reset on = all, repeated requests idempotent and monotone. "finishes as if the new result had come first" is not proved: trace correspondence with rerun/skip of every kind of failed task at random positions, reference-run oracle on the real engine.',
+    'level_note': 'Model = control-flow core of the engine (one direct-workflow execution, action tasks, joins all/one/N, on-success/on-error/on-complete with guards whose value is part of the program, engine commands fail/succeed/pause/noop, operator pause/resume/stop/rerun/skip, duplicate deliveries). One event = one committed transaction (tx_lock); data flow, policies, with-items and sub-workflows are outside this model (component models / oracles). Tree model (Rerun.v) = rows of workflow / task / action executions, one function per transaction of rerun_workflow / start_task(rerun) / REST put; what a skip continues with in the same transaction is left to the core model. Trusted: the harness interception points (rpc client, executor, post_tx_queue threads, scheduler rows, clock, uuid source), view abstraction, Gen/States translator.',
     'technique': 'Coq per-step theorems; trace correspondence with rerun/skip injection; oracle',
     'design_ref': '6 C12, 4, 5',
     'engine': 'coq+engine-harness',
@@ -25,6 +54,8 @@ def run(ctx):
                        'enabled events of the real engine with injection profiles [rerun, rerun, operator] (both scheduler types); '
                        'distinct = distinct (program, event list); non-trivial = at least 6 events')
     et.trace_suite(ctx, ['C12'], ['rerun', 'rerun', 'operator'], 220, 3000, suite='engine_trace_C12')
+    ctx.cov['rule'] += ('; tree part: ' + engine_rerun.RULE)
+    engine_rerun.run(ctx, ctx.n(260, 4000), suite='engine_rerun')
 
 
 def search(ctx):
@@ -40,7 +71,10 @@ def search(ctx):
         for f in t.failures:
             if f['property'] in PROPS:
                 ctx.fail(f['signature'], f['what'], dict(t.to_json(), events=t.labels[:f['at_event'] + 1], kind='engine-trace'))
+    engine_rerun.search(ctx, 1200)
 
 
 def replay(obj):
+    if obj.get('replay', obj).get('kind') == 'engine-rerun':
+        return engine_rerun.replay(obj)
     return et.replay_case(obj)
